@@ -200,6 +200,68 @@ Fixpoint periodic (t0 : Z) (lastf : option Z) (log : list entry) : Prop :=
   | OutOfFuel :: _ => False
   end.
 
+(* keeps trying, ANY spawner (also one that alternates between complete and incomplete).
+   The log is followed together with three ghost values: the spawner's state [s] (try_spawn and
+   the handlers applied as the log says), the instant [lastf] at which the previous attempt
+   returned (None: no attempt was made yet) and the instant [cur] of the previous log entry (the
+   start of the task for the first one).  An attempt is [due] when no attempt was made yet or a
+   wait period has passed since the previous one returned.  The specification of what may come next:
+     - spawner incomplete and an attempt due: nothing but the attempt, at this very instant;
+     - an attempt not due (cur < l + W): the next thing the loop does (handle an event, notice the
+       closed channel, time out) happens no later than l + W, a timeout exactly at l + W, never an attempt;
+     - spawner complete and an attempt due: no timeout, no attempt, the loop waits for a message;
+     - the log never just ends: only by Closed, a failing try_spawn, or the cut-off of the model. *)
+Definition due (lastf : option Z) (cur : Z) : bool :=
+  match lastf with None => true | Some l => l + W <=? cur end.
+(* [t] is not beyond the deadline l + W if the deadline is still ahead at [cur] *)
+Definition by_deadline (lastf : option Z) (cur t : Z) : Prop :=
+  match lastf with Some l => cur < l + W -> t <= l + W | None => True end.
+
+Fixpoint keeps {S} (P : spawner S) (s : S) (lastf : option Z) (cur : Z) (log : list entry) : Prop :=
+  match log with
+  | [] => False
+  | Try t f i :: r =>
+      sp_complete P s = false /\ due lastf cur = true /\ t = cur /\ t <= f /\ i = snd (sp_try P s)
+      /\ match i with None => r = [] | Some _ => keeps P (fst (fst (sp_try P s))) (Some f) f r end
+  | Handled t e :: r =>
+      (sp_complete P s = false -> due lastf cur = false) /\ cur <= t /\ by_deadline lastf cur t
+      /\ keeps P (handle P s e) lastf t r
+  | IdleAt t :: r =>
+      match lastf with Some l => cur < l + W /\ t = l + W | None => False end /\ keeps P s lastf t r
+  | Closed t :: r =>
+      (sp_complete P s = false -> due lastf cur = false) /\ cur <= t /\ by_deadline lastf cur t /\ r = []
+  | OutOfFuel :: r => r = []
+  end.
+
+(* the ghost values after a prefix of a log *)
+Fixpoint replay {S} (P : spawner S) (s : S) (lastf : option Z) (cur : Z) (pre : list entry) : S * option Z * Z :=
+  match pre with
+  | [] => (s, lastf, cur)
+  | Try _ f _ :: r => replay P (fst (fst (sp_try P s))) (Some f) f r
+  | Handled t e :: r => replay P (handle P s e) lastf t r
+  | IdleAt t :: r => replay P s lastf t r
+  | Closed t :: r => replay P s lastf t r
+  | OutOfFuel :: r => replay P s lastf cur r
+  end.
+
+(* a stretch of log without attempt during which the spawner is incomplete at every loop top
+   (before it, and after each of its entries) *)
+Fixpoint waiting {S} (P : spawner S) (s : S) (mid : list entry) : Prop :=
+  sp_complete P s = false /\
+  match mid with
+  | [] => True
+  | Handled _ e :: r => waiting P (handle P s e) r
+  | IdleAt _ :: r => waiting P s r
+  | _ => False
+  end.
+
+(* the instant at which an attempt is due when the spawner is seen incomplete at [cur] *)
+Definition deadline (lastf : option Z) (cur : Z) : Z :=
+  match lastf with None => cur | Some l => Z.max cur (l + W) end.
+
+Definition entry_time (e : entry) : option Z :=
+  match e with Try t _ _ | Handled t _ | IdleAt t | Closed t => Some t | OutOfFuel => None end.
+
 (* standard spawner: an attempt happens only when armed: before the first source, or after a
    removal for a reason other than Demobilized since the last source was spawned *)
 Definition spawned_info (i : option (list Z)) : bool :=
